@@ -180,6 +180,98 @@ def work_hist(chunk):
     return col
 
 
+# ---------------------------------------------------------------------------------------------
+# E4(b): per-iteration-event order deviations.  A `set` subclass is injected into the namespaces of
+# pDESy.model.base_workflow / base_product, so that every set the library builds there iterates in
+# hash-rank order by default and in an alternative permutation at exactly one chosen iteration
+# event of the run (deviation bound 1: every event x every alternative order of that set).
+# ---------------------------------------------------------------------------------------------
+class _Ctrl(object):
+    def __init__(self):
+        self.reset(None, None)
+
+    def reset(self, at, perm):
+        self.n = 0
+        self.at = at
+        self.perm = perm
+        self.sizes = []
+
+
+CTRL = _Ctrl()
+
+
+class CSet(set):
+    def __iter__(self):
+        items = sorted(set.__iter__(self), key=lambda o: hash(o))
+        if len(items) >= 2:
+            k = CTRL.n
+            CTRL.n += 1
+            CTRL.sizes.append(len(items))
+            if CTRL.at == k and CTRL.perm is not None and len(CTRL.perm) == len(items):
+                items = [items[i] for i in CTRL.perm]
+        return iter(items)
+
+
+def _inject(on):
+    import pDESy.model.base_workflow as bw
+    import pDESy.model.base_product as bp
+
+    for mod in (bw, bp):
+        if on:
+            mod.set = CSet
+        elif "set" in mod.__dict__:
+            del mod.__dict__["set"]
+
+
+def work_events(chunk):
+    col = engines.Collector()
+    _inject(True)
+    try:
+        for spec, opts in chunk:
+            key = hash(repr(spec) + repr(opts))
+            CTRL.reset(None, None)
+            base = runner.run(spec, dict(opts, phases=()))
+            sizes = list(CTRL.sizes)
+            ref = jdump(base.m) if base.error is None else "ERR:" + base.error
+            col.evaluations += 1
+            col.states.add(hash((key, ref)))
+            for k, sz in enumerate(sizes):
+                for perm in itertools.permutations(range(sz)):
+                    if perm == tuple(range(sz)):
+                        continue
+                    CTRL.reset(k, perm)
+                    ex = runner.run(spec, dict(opts, phases=()))
+                    col.evaluations += 1
+                    col.checks["c09.event-deviation"] += 1
+                    col.transitions.add(hash((key, k, perm)))
+                    got = jdump(ex.m) if ex.error is None else "ERR:" + ex.error
+                    if got != ref:
+                        d = first_diff(ref, got) if not (ref.startswith("ERR") or got.startswith("ERR")) else ("error", ref[:80], got[:80])
+                        col.violation({"property": "C09", "sig": "C09:result-depends-on-order-of-one-set-iteration:" + classify(spec, d), "kind": "event", "spec": spec, "opts": opts,
+                                       "event": k, "perm": list(perm), "detail": {"iteration_event": k, "of": len(sizes), "first_difference(path, default-order, deviated)": d}})
+            col.extra["iteration_events_total"] += len(sizes)
+            if sizes:
+                col.nontrivial.add(key)
+    finally:
+        CTRL.reset(None, None)
+        _inject(False)
+    return col
+
+
+def event_items(tier):
+    out = []
+    if tier == "quick":
+        flows = [fl for fl in F.flows(3, ("FF", "SF", "SS"), (1,))][::3] + list(F.flows(2, F.KINDS4, (1, 2)))
+    else:
+        flows = list(F.flows(3, F.KINDS4, (1, 2)))[::2] + list(F.flows(2, F.KINDS4, (1, 2)))
+    for fl in flows:
+        n = len(fl["tasks"])
+        for lay in (("DED",) if tier == "quick" else ("DED", "POOL2")):
+            sp = F.with_teams(fl, lay)
+            out.append((sp, {"rule": "TSLACK", "max_time": F.seq_bound(sp) + 4}))
+    return out
+
+
 def perm_items(tier):
     out = []
     if tier == "quick":
@@ -257,14 +349,17 @@ def run(tier, seed):
     hi = hist_items(tier)
     col.merge(engines.fanout(hi, work_hist, seed=seed))
     cross_process(col)
+    ei = event_items(tier)
+    col.merge(engines.fanout(ei, work_events, seed=seed))
     meta = {
         "level": "model_checking",
         "rule": "schedule exploration: for every 3-task workflow over the four dependency kinds x works {1,2} x layouts x rules (thorough: also 4-task FS/FF/SS) and FAC models, ALL n! "
         "assignments of hash ranks to tasks (and all permutations for components), i.e. every iteration order of every internal set of tasks/components, complete dump compared with "
         "the identity order; histories on one object (simulate;simulate), rebuilt models with the library's id()-hashed classes, contamination histories (activity on project A, then "
-        "default-argument simulate on a fresh project B, mutable defaults compared), and one sub-family in two fresh interpreters with different PYTHONHASHSEED; "
+        "default-argument simulate on a fresh project B, mutable defaults compared), and one sub-family in two fresh interpreters with different PYTHONHASHSEED; per-iteration-event deviations: with a set subclass injected into the library's modules, every single iteration "
+        "event of a run is given every alternative order of that set (deviation bound 1) on 2-3 task models; "
         "non-trivial = distinct models with at least one dependency link (permutations) or explored history roots",
-        "bounds": {"perm_models": len(pi), "history_models": len(hi), "tasks": "3 (thorough 4)"},
+        "bounds": {"perm_models": len(pi), "history_models": len(hi), "tasks": "3 (thorough 4)", "event_deviation_models": len(ei), "event_deviation_bound": 1},
         "assumptions": ["for small distinct integer hashes CPython sets iterate in ascending hash order, so n! hash-rank assignments realise every iteration order of the sets the library builds",
                         "string hashing cannot influence the library (its sets hold only model objects); checked by the two-interpreter run"],
     }
@@ -281,6 +376,9 @@ def replay(v):
     if v.get("kind") == "hist":
         col = work_hist([(v["spec"], v["opts"])])
         return col.violations
+    if v.get("kind") == "event":
+        col = work_events([(v["spec"], v["opts"])])
+        return [x for x in col.violations if x.get("event") == v.get("event") and x.get("perm") == v.get("perm")]
     if v.get("kind") == "proc":
         col = engines.Collector()
         cross_process(col)
